@@ -523,6 +523,41 @@ func worldPorts(w *World) {
 				}
 				w.Probe("ports.udp_user_datagrams")
 				hist("datagrams to udp :%d", p.port)
+				if r.Intn(3) == 0 {
+					// the owner closes the proxy while user datagrams keep arriving
+					w.Probe("ports.udp_close_under_traffic")
+					stopTraffic := make(chan struct{})
+					var twg sync.WaitGroup
+					twg.Add(1)
+					port := p.port
+					go func() {
+						defer twg.Done()
+						uc, err := simnet.ListenUDP("udp", &net.UDPAddr{IP: net.ParseIP("10.0.3.201")})
+						if err != nil {
+							return
+						}
+						defer uc.Close()
+						to := &net.UDPAddr{IP: net.ParseIP("10.0.0.1"), Port: port}
+						for i := 0; i < 400; i++ {
+							select {
+							case <-stopTraffic:
+								return
+							default:
+							}
+							uc.WriteToUDP([]byte("x"), to)
+							time.Sleep(time.Duration(1+i%3) * 300 * time.Microsecond)
+						}
+					}()
+					time.Sleep(time.Duration(r.Range(1, 30)) * time.Millisecond)
+					hist("%s.close(%s) under traffic", p.owner.Name, p.name)
+					p.owner.CloseProxy(p.name)
+					syncCtl(p.owner)
+					unlive(p.name)
+					close(stopTraffic)
+					twg.Wait()
+					checkInv("close-under-udp-traffic")
+					continue
+				}
 				time.Sleep(200 * time.Millisecond)
 				checkInv("after-udp-traffic")
 				continue
